@@ -13,8 +13,10 @@ Two renderings of the same productions, both independent of the parser's idioms 
    synthesised attribute threaded through the derivation (`Tok` sets it), and `Props/C03Parser.lean` proves it is
    the end of the last token of the derived span (`loc_stop_is_last_token`).
 2. **An executable recogniser** `recognise`: the productions transcribed as data (`rule : NT → G`, EBNF with
-   ordered choice) and a 30-line generic interpreter `run`.  The correspondence harness runs the real parser
-   against it on every input.
+   ordered choice `alt`, longest-match `opt`/`star`, and `optIf`/`starIf` for the optional / repeated parts that are
+   recognised by their first token) and a generic interpreter `run`.  The correspondence harness runs the real
+   parser against it on every input, and `Props/C03Parser.lean` proves that whenever it answers, the answer is
+   `true` exactly for the token lists `DerivesDoc` derives (`recognise_iff_derives`).
 
 Edition.  The productions are the ones quoted in the comments of parser.go (pre-`null` value grammar,
 `&`-separated interfaces with optional leading `&`, string/block-string descriptions, `extend type` only, no
@@ -375,7 +377,20 @@ inductive NT
   | typeExtensionDefinition | directiveDefinition | directiveLocations | description
 deriving DecidableEq, Repr
 
-/-- EBNF right-hand sides; `alt` is ordered choice, `opt`/`star`/`plus` are longest-match -/
+/-- one-token look-ahead conditions -/
+inductive Look
+  | kind (k : TokenKind)
+  | kw (s : String)
+
+def Look.holds : Look → List Token → Bool
+  | .kind k, t :: _ => decide (t.kind = k)
+  | .kw s, t :: _ => decide (t.kind = .name ∧ t.value = s)
+  | _, [] => false
+
+/-- EBNF right-hand sides.  `alt` is ordered choice, `opt`/`star` are longest match; `optIf c g` / `starIf c g` are
+the optional / repeated parts that are recognised by their first token (`g?` resp. `g*` where every `g` starts with a
+token satisfying `c` and nothing that may follow does — the grammar is LL(1) at these places): present iff the next
+token satisfies `c`. -/
 inductive G
   | tok (k : TokenKind)
   | kw (s : String)
@@ -385,7 +400,8 @@ inductive G
   | alt (a b : G)
   | opt (g : G)
   | star (g : G)
-  | plus (g : G)
+  | optIf (c : Look) (g : G)
+  | starIf (c : Look) (g : G)
   | nt (n : NT)
 
 def G.seqs : List G → G
@@ -398,27 +414,32 @@ def G.alts : List G → G
   | [g] => g
   | g :: gs => .alt g (G.alts gs)
 
+/-- `g+` -/
+def G.plus (g : G) : G := .seq g (.star g)
+
 open G NT in
-/-- the productions (compare with the comments quoted above and in parser.go) -/
+/-- the productions (compare with the comments quoted above and in parser.go); `directives` is `Directives?`,
+i.e. `Directive*` -/
 def rule : NT → G
   | document => plus (nt definition)
   | definition => alts [nt operationDefinition, nt fragmentDefinition, nt typeSystemDefinition]
   | operationDefinition => alt (nt selectionSet)
-      (seqs [nt operationType, opt (tok .name), opt (nt variableDefinitions), opt (nt directives), nt selectionSet])
+      (seqs [nt operationType, opt (tok .name), optIf (.kind .parenL) (nt variableDefinitions), nt directives, nt selectionSet])
   | operationType => alts [kw "query", kw "mutation", kw "subscription"]
   | variableDefinitions => seqs [tok .parenL, plus (nt variableDefinition), tok .parenR]
-  | variableDefinition => seqs [nt var, tok .colon, nt type, opt (nt defaultValue)]
+  | variableDefinition => seqs [nt var, tok .colon, nt type, optIf (.kind .equals) (nt defaultValue)]
   | var => seq (tok .dollar) (tok .name)
   | defaultValue => seq (tok .equals) (nt constValue)
   | selectionSet => seqs [tok .braceL, plus (nt selection), tok .braceR]
   | selection => alts [nt field, nt fragmentSpread, nt inlineFragment]
-  | field => seqs [opt (nt alias), tok .name, opt (nt arguments), opt (nt directives), opt (nt selectionSet)]
+  | field => seqs [opt (nt alias), tok .name, optIf (.kind .parenL) (nt arguments), nt directives,
+      optIf (.kind .braceL) (nt selectionSet)]
   | alias => seq (tok .name) (tok .colon)
   | arguments => seqs [tok .parenL, plus (nt argument), tok .parenR]
   | argument => seqs [tok .name, tok .colon, nt value]
-  | fragmentSpread => seqs [tok .spread, nt fragmentName, opt (nt directives)]
-  | inlineFragment => seqs [tok .spread, opt (nt typeCondition), opt (nt directives), nt selectionSet]
-  | fragmentDefinition => seqs [kw "fragment", nt fragmentName, nt typeCondition, opt (nt directives), nt selectionSet]
+  | fragmentSpread => seqs [tok .spread, nt fragmentName, nt directives]
+  | inlineFragment => seqs [tok .spread, optIf (.kw "on") (nt typeCondition), nt directives, nt selectionSet]
+  | fragmentDefinition => seqs [kw "fragment", nt fragmentName, nt typeCondition, nt directives, nt selectionSet]
   | fragmentName => nameBut ["on"]
   | typeCondition => seq (kw "on") (nt namedType)
   | value => alts [nt var, tok .int, tok .float, tok .string, tok .blockString, nt booleanValue, nt enumValue,
@@ -433,8 +454,8 @@ def rule : NT → G
   | constObjectField => seqs [tok .name, tok .colon, nt constValue]
   | booleanValue => alt (kw "true") (kw "false")
   | enumValue => nameBut ["true", "false", "null"]
-  | directives => plus (nt directive)
-  | directive => seqs [tok .at, tok .name, opt (nt arguments)]
+  | directives => starIf (.kind .at) (nt directive)
+  | directive => seqs [tok .at, tok .name, optIf (.kind .parenL) (nt arguments)]
   | type => alts [nt nonNullType, nt namedType, nt listType]
   | namedType => tok .name
   | listType => seqs [tok .bracketL, nt type, tok .bracketR]
@@ -442,31 +463,32 @@ def rule : NT → G
   | typeSystemDefinition => alts [nt schemaDefinition, nt scalarTypeDefinition, nt objectTypeDefinition,
       nt interfaceTypeDefinition, nt unionTypeDefinition, nt enumTypeDefinition, nt inputObjectTypeDefinition,
       nt typeExtensionDefinition, nt directiveDefinition]
-  | schemaDefinition => seqs [kw "schema", opt (nt directives), tok .braceL, plus (nt operationTypeDefinition), tok .braceR]
+  | schemaDefinition => seqs [kw "schema", nt directives, tok .braceL, plus (nt operationTypeDefinition), tok .braceR]
   | operationTypeDefinition => seqs [nt operationType, tok .colon, nt namedType]
-  | scalarTypeDefinition => seqs [opt (nt description), kw "scalar", tok .name, opt (nt directives)]
-  | objectTypeDefinition => seqs [opt (nt description), kw "type", tok .name, opt (nt implementsInterfaces),
-      opt (nt directives), tok .braceL, star (nt fieldDefinition), tok .braceR]
-  | implementsInterfaces => seqs [kw "implements", opt (tok .amp), nt namedType, star (seq (tok .amp) (nt namedType))]
-  | fieldDefinition => seqs [opt (nt description), tok .name, opt (nt argumentsDefinition), tok .colon, nt type,
-      opt (nt directives)]
+  | scalarTypeDefinition => seqs [opt (nt description), kw "scalar", tok .name, nt directives]
+  | objectTypeDefinition => seqs [opt (nt description), kw "type", tok .name,
+      optIf (.kw "implements") (nt implementsInterfaces), nt directives, tok .braceL, star (nt fieldDefinition), tok .braceR]
+  | implementsInterfaces => seqs [kw "implements", opt (tok .amp), nt namedType,
+      starIf (.kind .amp) (seq (tok .amp) (nt namedType))]
+  | fieldDefinition => seqs [opt (nt description), tok .name, optIf (.kind .parenL) (nt argumentsDefinition), tok .colon,
+      nt type, nt directives]
   | argumentsDefinition => seqs [tok .parenL, plus (nt inputValueDefinition), tok .parenR]
-  | inputValueDefinition => seqs [opt (nt description), tok .name, tok .colon, nt type, opt (nt defaultValue),
-      opt (nt directives)]
-  | interfaceTypeDefinition => seqs [opt (nt description), kw "interface", tok .name, opt (nt directives),
+  | inputValueDefinition => seqs [opt (nt description), tok .name, tok .colon, nt type,
+      optIf (.kind .equals) (nt defaultValue), nt directives]
+  | interfaceTypeDefinition => seqs [opt (nt description), kw "interface", tok .name, nt directives,
       tok .braceL, star (nt fieldDefinition), tok .braceR]
-  | unionTypeDefinition => seqs [opt (nt description), kw "union", tok .name, opt (nt directives), tok .equals,
+  | unionTypeDefinition => seqs [opt (nt description), kw "union", tok .name, nt directives, tok .equals,
       nt unionMembers]
-  | unionMembers => seq (nt namedType) (star (seq (tok .pipe) (nt namedType)))
-  | enumTypeDefinition => seqs [opt (nt description), kw "enum", tok .name, opt (nt directives),
+  | unionMembers => seq (nt namedType) (starIf (.kind .pipe) (seq (tok .pipe) (nt namedType)))
+  | enumTypeDefinition => seqs [opt (nt description), kw "enum", tok .name, nt directives,
       tok .braceL, star (nt enumValueDefinition), tok .braceR]
-  | enumValueDefinition => seqs [opt (nt description), tok .name, opt (nt directives)]
-  | inputObjectTypeDefinition => seqs [opt (nt description), kw "input", tok .name, opt (nt directives),
+  | enumValueDefinition => seqs [opt (nt description), tok .name, nt directives]
+  | inputObjectTypeDefinition => seqs [opt (nt description), kw "input", tok .name, nt directives,
       tok .braceL, star (nt inputValueDefinition), tok .braceR]
   | typeExtensionDefinition => seq (kw "extend") (nt objectTypeDefinition)
-  | directiveDefinition => seqs [opt (nt description), kw "directive", tok .at, tok .name, opt (nt argumentsDefinition),
-      kw "on", nt directiveLocations]
-  | directiveLocations => seq (tok .name) (star (seq (tok .pipe) (tok .name)))
+  | directiveDefinition => seqs [opt (nt description), kw "directive", tok .at, tok .name,
+      optIf (.kind .parenL) (nt argumentsDefinition), kw "on", nt directiveLocations]
+  | directiveLocations => seq (tok .name) (starIf (.kind .pipe) (seq (tok .pipe) (tok .name)))
   | description => alt (tok .string) (tok .blockString)
 
 /-- result of the interpreter: out of fuel, no match, or the tokens left -/
@@ -475,7 +497,7 @@ inductive R
   | no
   | rest (ts : List Token)
 
-/-- generic interpreter: longest match for `opt`/`star`/`plus`, ordered choice for `alt` -/
+/-- generic interpreter -/
 def run : Nat → G → List Token → R
   | 0, _, _ => .fuel
   | n + 1, g, ts =>
@@ -487,7 +509,7 @@ def run : Nat → G → List Token → R
       | t :: r => if t.kind = .name ∧ t.value = s then .rest r else .no
       | [] => .no
     | .nameBut ex => match ts with
-      | t :: r => if t.kind = .name ∧ ¬ ex.contains t.value then .rest r else .no
+      | t :: r => if t.kind = .name ∧ ¬ t.value ∈ ex then .rest r else .no
       | [] => .no
     | .eps => .rest ts
     | .seq a b => match run n a ts with
@@ -503,7 +525,13 @@ def run : Nat → G → List Token → R
       | .no => .rest ts
       | .fuel => .fuel
       | .rest r => if r.length < ts.length then run n (.star a) r else .rest r
-    | .plus a => run n (.seq a (.star a)) ts
+    | .optIf c a => if c.holds ts then run n a ts else .rest ts
+    | .starIf c a =>
+      if c.holds ts then
+        match run n a ts with
+        | .rest r => if r.length < ts.length then run n (.starIf c a) r else .rest r
+        | x => x
+      else .rest ts
     | .nt x => run n (rule x) ts
 
 /-- fuel for the interpreter: the call depth is linear in the number of tokens -/
